@@ -135,6 +135,111 @@ def run_case(GroupBy, c, expected, observed, labels):
     return viol
 
 
+# ------------------------------------------------------------------ mean of temporal (and wide integer) values
+TEMPORAL_ALPHA = {
+    # present-day dates in epoch nanoseconds (a handful of them no longer sum within 64 bits), dates before 1970, small ticks
+    "M8": [None, 1_704_067_200_123_456_789, 1_704_153_600_000_000_001, 1_600_000_000_000_000_000, -1_500_000_000_000_000_007, 10, 20, 5],
+    "m8": [None, 2**62 + 3, -(2**62) - 1, 86_400_000_000_000, 10, -20, 7],
+    "i8": [2**62 + 3, -(2**62) - 1, 2**53 + 1, 7, -3],
+}
+
+
+def temporal_mean_stream(res, rng, tier, GroupBy, drv):
+    """mean = sum / count in the mathematical sense, for groups of any size: the mean of values that fit the dtype fits the
+    dtype, whatever their (unbounded) sum does.  Oracle: exact integer sum and count of the selected non-null values of each
+    label, divided exactly; a temporal mean must be within one tick of it (no float detour), with margins and transform."""
+    cases = []
+    for t in range(250 if tier == "quick" else 2500):
+        n = rng.randint(1, 12 if tier == "quick" else 16)
+        nlab = rng.choice([1, 2, 3])
+        col = [rng.randrange(nlab) if rng.random() > 0.1 else None for _ in range(n)]
+        dt = rng.choice(["M8", "M8", "m8", "i8"])
+        alpha = TEMPORAL_ALPHA[dt]
+        if rng.random() < 0.5:
+            alpha = [a for a in alpha if a is None or abs(a) > 10**15] or alpha     # big magnitudes only
+        vals = [rng.choice(alpha) for _ in range(n)]
+        mask = None if rng.random() < 0.7 else ("b", [rng.random() < 0.7 for _ in range(n)])
+        strat = rng.choice([None, None, "chunked", "threads", "both"])
+        cont = rng.choice(["numpy", "pandas"])
+        kind = rng.choice([k for k in ["int", "float", "str"] if api.kind_ok(col, k)])
+        cases.append(dict(keycols=[col], kinds=[kind], dt=dt, vals=vals, mask=mask, op="mean", container=cont, index=None, strategy=strat,
+                          margins=rng.random() < 0.2, transform=rng.random() < 0.2))
+    for c in cases:
+        codes, labels = api.logical_codes(c["keycols"])
+        # exact sums and counts per label over the selected rows (unbounded integers)
+        rows = [i for i in range(len(codes)) if (c["mask"] is None or c["mask"][1][i]) and codes[i] >= 0]
+        observed = [any(codes[i] == g for i in rows) for g in range(len(labels))]
+        sums = [sum(c["vals"][i] for i in rows if codes[i] == g and c["vals"][i] is not None) for g in range(len(labels))]
+        cnts = [sum(1 for i in rows if codes[i] == g and c["vals"][i] is not None) for g in range(len(labels))]
+        if not any(observed):
+            continue          # no label at all: nothing to average
+        n = len(codes)
+        case = dict(stream="temporal-mean", keys=c["keycols"], key_kinds=c["kinds"], dtype=c["dt"], values=c["vals"], mask=c["mask"], op="mean",
+                    container=c["container"], strategy=c["strategy"], margins=c["margins"], transform=c["transform"])
+        res.note_case(repr(case), True)
+        res.count("stream", "temporal-mean"); res.count("op", "mean"); res.count("dtype", c["dt"])
+        if c["transform"]:
+            c["margins"] = False
+        want = {}
+        for g, lab in enumerate(labels):
+            if observed[g]:
+                want[lab] = None if cnts[g] == 0 else Fraction(sums[g] or 0, cnts[g])
+        sel = [i for i in (range(n) if c["mask"] is None else [i for i in range(n) if c["mask"][1][i]]) if codes[i] >= 0]
+        tot_vals = [c["vals"][i] for i in sel if c["vals"][i] is not None]
+        if c["margins"] and sel:
+            want[("All",)] = Fraction(sum(tot_vals), len(tot_vals)) if tot_vals else None
+        # does an exact sum the library has to form on the way leave the 64-bit range?  (known finding K3)
+        big = any(cnts[g] and not -2**63 <= (sums[g] or 0) < 2**63 for g in range(len(labels))) or (c["margins"] and tot_vals and not -2**63 <= sum(tot_vals) < 2**63)
+        # partial sums in row order (a wrapped partial sum that returns into range is fine for a wrapping accumulator: not flagged)
+        res.count("sum_exceeds_int64", bool(big))
+        sig = dict(level="api", stream="temporal-mean", op="mean", dtype=c["dt"], sum_exceeds_int64=bool(big))
+        keys = [api.make_key(c["keycols"][0], c["kinds"][0], c["container"], name="k0")]
+        values = api.make_values(c["vals"], c["dt"], c["container"], name="v")
+        mask = api.api_mask(c["mask"], as_series=(c["container"] == "pandas"))
+        st = c["strategy"]
+        with api.strategy(chunk_threshold=4 if st in ("chunked", "both") else None, rows_per_thread=2 if st in ("threads", "both") else None):
+            r2 = api.call(lambda: GroupBy(keys[0]).mean(values, mask=mask, margins=c["margins"], transform=c["transform"]))
+        if r2[0] != "ok":
+            if not want:
+                continue
+            res.violations.append(dict(sig={**sig, "what": "raised", "exc": r2[1]}, case=case, what="GroupBy.mean raised: " + r2[2], observed=r2[2], expected=str(want)))
+            continue
+        out = r2[1]
+        vals_out = api.canon_series(out)
+        if c["transform"]:
+            got_rows = vals_out
+            want_rows = [None if codes[i] < 0 or not observed[codes[i]] else want.get(labels[codes[i]]) for i in range(n)]
+            pairs = [(i, g, w) for i, (g, w) in enumerate(zip(got_rows, want_rows)) if codes[i] >= 0 and observed[codes[i]]]
+        else:
+            got = dict(zip(api.index_to_ranks(out.index, c["kinds"]), vals_out))
+            if set(got) != set(want):
+                res.violations.append(dict(sig={**sig, "what": "labels"}, case=case, what="labels reported differ from the labels having a selected row", observed=str(sorted(got, key=str)), expected=str(sorted(want, key=str))))
+                continue
+            pairs = [(k, got[k], want[k]) for k in want]
+        if not c["transform"] and not c["margins"] and c["dt"] in ("M8", "m8"):
+            # Tie A: the extracted group_mean_ticks (64-bit wrapping sum // count) is what the implementation returns,
+            # overflowing groups included - the property fails exactly where the model says it does
+            gl = [g for g in range(len(labels)) if observed[g]]
+            from ..common import sx
+            mresp = drv.ask([sx(["mean_ticks", [[str(c["vals"][i]) for i in rows if codes[i] == g and c["vals"][i] is not None] for g in gl]])])[0]
+            model = {labels[g]: (None if a == "N" else int(a)) for g, a in zip(gl, mresp)}
+            if any(got.get(k) != model[k] for k in model):
+                res.model_mismatches.append(dict(case=case, impl=str({str(k): got.get(k) for k in model}), model=str({str(k): v for k, v in model.items()})))
+        bad = []
+        for k, g, w in pairs:
+            if w is None or g is None:
+                if (w is None) != (g is None):
+                    bad.append((k, g, w))
+            elif c["dt"] == "i8":
+                if abs(Fraction(g) - w) > abs(w) * Fraction(1, 10**12) + Fraction(1, 10**9):
+                    bad.append((k, g, w))
+            elif abs(Fraction(int(g)) - w) >= 1:          # a temporal mean is the exact mean to the resolution of the dtype
+                bad.append((k, g, w))
+        if bad:
+            res.violations.append(dict(sig={**sig, "what": "value"}, case=case, what=f"GroupBy.mean of {c['dt']} values differs from sum / count at {[b[0] for b in bad]}",
+                                       observed=str({str(b[0]): str(b[1]) for b in bad}), expected=str({str(b[0]): str(float(b[2]) if b[2] is not None else None) for b in bad})))
+
+
 def run(res, tier="quick", seed=0, widen=False):
     from groupby_lib import GroupBy
 
@@ -171,6 +276,7 @@ def run(res, tier="quick", seed=0, widen=False):
         for v in run_case(GroupBy, c, expected, observed, labels):
             v["case"] = case
             res.violations.append(v)
+    temporal_mean_stream(res, rng, tier, GroupBy, drv)
 
 
 def replay(payload):
